@@ -467,6 +467,8 @@ BaseOf(c) ==
            [] c.op = "ttm"    -> [c EXCEPT !.shape = RotL(c.shape)]
            [] c.op = "p2"     -> [c EXCEPT !.lens = RotL(c.lens)]
 MixAt(c) == IF c.mix \in {"int_first", "f32_first", "cplx_first"} THEN 1 ELSE Len(FactorShapes(c))
+RotHash(c) == SumSeq(c.shape) + 2 * SumSeq(c.rank) + c.at + c.dl + 1 + Len(c.shape) + (IF c.hasw THEN 1 ELSE 0)
+PlainCfg(c) == c.bad = "none" /\ c.mix = "none" /\ c.mag = 0 /\ c.tmag = 0 /\ c.zero = "none" /\ ~c.late /\ c.pnear = 0
 \* the exported configuration: the record above plus the array shapes the harness has to fill
 Expand(c) ==
     [op |-> c.op, shape |-> c.shape, rank |-> c.rank, hasw |-> c.hasw, bad |-> c.bad, at |-> c.at, dl |-> c.dl,
@@ -479,6 +481,14 @@ Expand(c) ==
      pshapes |-> PShapes(c),
      pden |-> IF c.bad = "nonorth_half" THEN 2 ELSE 1,
      mix |-> c.mix, late |-> c.late, mag |-> c.mag, tmag |-> c.tmag, zero |-> c.zero, pnear |-> c.pnear,
+     \* HOW the functions are called and WHAT the arrays are -- never a change of the represented tensor.  Rotated over the
+     \* configurations (no products): callform = "plain" (first argument positional, the others by keyword), "pos" (every
+     \* argument positionally in the published order, booleans as NumPy bools) or "kw" (every argument by its published
+     \* name, booleans as 0 / 1); alias = two equal-shaped factors are the SAME array object; vals = the zeros of one
+     \* factor column are -0.0 ("negzero") or the smallest subnormal 5e-324 ("subnormal": contributes < 1e-300 to any entry)
+     callform |-> <<"plain", "pos", "kw">>[(RotHash(c) % 3) + 1],
+     alias |-> PlainCfg(c) /\ (RotHash(c) \div 3) % 2 = 0,
+     vals |-> IF PlainCfg(c) THEN <<"plain", "negzero", "subnormal">>[((RotHash(c) \div 6) % 3) + 1] ELSE "plain",
      \* LATE: array shapes of the valid configuration the wrapper object is built from before its parts are replaced
      bfshapes |-> IF c.late THEN FactorShapes(BaseOf(c)) ELSE <<>>,
      bcoreshape |-> IF c.late /\ c.op = "tucker" THEN BaseOf(c).rank ELSE <<>>,
